@@ -186,6 +186,10 @@ def run_case(case: Dict[str, Any], ctx) -> None:
                 ctx.violation(f"C13:range-property-wrong:{nme}", f"E{E}M{M}: {got!r} != {w!r}", E=E, M=M)
         if fmt.bits != 1 + E + M:
             ctx.violation("C13:range-property-wrong:bits", f"E{E}M{M}: {fmt.bits}")
+        # history: other formats / rounding modes used just before in this process must not matter (stateless by statement)
+        for (e2, m2, r2) in ((E, max(M - 1, 0), "nearest"), (max(E - 1, 2), M, "nearest"), (E, M, "stochastic")):
+            FPFormat(e2, m2, rounding=r2).quantise(torch.tensor([0.3, -1.7, 5e-4]))
+        ctx.count("history:primed-with-other-formats")
         x = _inputs_for(E, M, case["nrand"], case["seed"])
         for i in range(0, x.numel(), 2**20):
             judge(fmt, E, M, x[i:i + 2**20].clone(), ctx, "values")
